@@ -27,5 +27,8 @@ void probe () {
   s += " co=" + this_object ()->twice (21);
   u = "/vreg"->get ("u1");
   s += " side in=" + (u ? in_input (u) : -1);
+  // the heart beat of the object under test (error_handler switches it off when an error reaches the driver)
+  o = find_object ("/c05/gen/t");
+  s += " hb=" + (o ? query_heart_beat (o) : 0);
   VL ("probe " + s);
 }
